@@ -1,6 +1,7 @@
 import TinsModel.Crypto.Wpa2
 import TinsModel.Crypto.Spec
 import TinsModel.Crypto.LemmasWep
+import TinsModel.Crypto.LemmasSafety
 /-
   Property C09 — WEP / TKIP / CCMP decryption recovers exactly the plaintext, safely.
   Theorems only (helper lemmas live in TinsModel/Crypto/Lemmas*.lean).
@@ -107,5 +108,149 @@ example : ∃ (h : Hdr) (pws : WepPasswords) (pw m : Bytes) (s : Snap),
   ⟨{ fc0 := 0x08, fc1 := 0x41, addr1 := [1, 1, 1, 1, 1, 1], addr2 := [2, 2, 2, 2, 2, 2], addr3 := [3, 3, 3, 3, 3, 3],
      sc0 := 0, sc1 := 0 }, [([1, 1, 1, 1, 1, 1], [9, 9, 9, 9, 9])], [9, 9, 9, 9, 9],
    [0xaa, 0xaa, 3, 0, 0, 0, 0x88, 0xb5, 1, 2], ⟨0xaa, 0xaa, 3, 0, 0x88b5, .raw [1, 2]⟩, by decide, by rfl, rfl⟩
+
+/-! ## CCMP (block cipher = an arbitrary function `E`) -/
+
+/-- **Header variants: the parser inverts the header bytes.** For every well-formed data-frame header (to/from-DS,
+    IBSS, 4-address; QoS control present exactly for subtypes above 4) and every non-empty protected body,
+    `Dot11::from_bytes` yields exactly that header and the body as a `RawPDU`. -/
+theorem parse_inverts_header_bytes (ip : InnerParser) (h : Hdr) (wf : h.WF) (hw : h.wep = true) (body : Bytes)
+    (hb : body ≠ []) : parseFrame ip (h.bytes ++ body) = .ok (.data ⟨h, .raw body⟩) :=
+  parseFrame_bytes ip h wf hw body hb
+
+/-- **AAD / nonce construction for every header variant.** The 32-byte AAD array, the priority byte and the nonce
+    that `ccmp_decrypt_unicast` assembles from the parsed fields equal the length-prefixed, zero-padded AAD and the
+    nonce of IEEE 802.11 computed from the header *bytes* (masked frame control, A1-A3, masked sequence control,
+    A4 and the TID when present). Subtypes 4-7 (no frame body) are excluded. -/
+theorem ccmp_aad_nonce_is_ieee (h : Hdr) (wf : h.WF) (hsub : h.subtype < 4 ∨ 8 ≤ h.subtype) :
+    ccmpAad h = .ok (padZero 32 (Spec.be16 (Spec.ccmpAad h.bytes).length ++ Spec.ccmpAad h.bytes), specPrio h.bytes) ∧
+    (∀ pn, Spec.ccmpNonce h.bytes pn = [specPrio h.bytes] ++ h.addr2 ++ Spec.pnBytes pn) :=
+  ⟨(ccmpAad_spec h wf hsub).1, (ccmpAad_spec h wf hsub).2.1⟩
+
+/-- **Refinement.** For *every* block function `E` with 16-byte output, every well-formed header and every body
+    longer than 16 bytes, `ccmp_decrypt_unicast` returns the LLC/SNAP parse of the specification's CCMP
+    decapsulation (counter mode + CBC-MAC over B0, AAD, data): null exactly when the MIC does not verify or the
+    plaintext is not a well-formed LLC/SNAP payload. -/
+theorem ccmp_refines_spec (ip : InnerParser) (E : BlockFn) (hE : ∀ b, (E b).length = 16) (h : Hdr) (wf : h.WF)
+    (hsub : h.subtype < 4 ∨ 8 ≤ h.subtype) (pload : Bytes) (hn : 16 < pload.length) :
+    ∃ p', ccmpDecrypt ip E h pload = .ok (snapResult ip (Spec.ccmpDecap E h.bytes pload), p') :=
+  ccmpDecrypt_refines ip E hE h wf hsub pload hn
+
+/-- **Round trip (specification level)** for every block function, header, 48-bit PN, key-id byte and data. -/
+theorem ccmp_spec_roundtrip (E : BlockFn) (hE : ∀ b, (E b).length = 16) (hb : Bytes) (pn : Nat) (hpn : pn < 2 ^ 48)
+    (kid : UInt8) (m : Bytes) : Spec.ccmpDecap E hb (Spec.ccmpEncap E hb pn kid m) = some m :=
+  spec_ccmp_roundtrip E hE hb pn hpn kid m
+
+/-- **Round trip.** For every block cipher `aes` (16-byte blocks), every well-formed protected header variant, every
+    48-bit packet number, key-id byte and LLC/SNAP payload `m` (parsing to `s`): the frame made of the header bytes
+    and the reference CCMP encapsulation of `m` under the temporal key parses to that header, and
+    `WPA2Decrypter::decrypt` — whenever its key lookup yields CCMP session keys with that temporal key — returns
+    true, installs exactly `s` and clears the protected bit. Independent of AES. -/
+theorem ccmp_roundtrip (ip : InnerParser) (aes : Bytes → BlockFn) (keys : KeyTable) (k : SessionKeys) (h : Hdr)
+    (wf : h.WF) (hsub : h.subtype < 4 ∨ 8 ≤ h.subtype) (hw : h.wep = true)
+    (hk : findKeys keys h = some k) (hc : k.isCcmp = true)
+    (hE : ∀ b, (aes ((k.ptk.drop 32).take 16) b).length = 16)
+    (pn : Nat) (hpn : pn < 2 ^ 48) (kid : UInt8) (m : Bytes) (s : Snap) (hs : snapParse ip m = .ok s) :
+    let body := Spec.ccmpEncap (aes ((k.ptk.drop 32).take 16)) h.bytes pn kid m
+    parseFrame ip (h.bytes ++ body) = .ok (.data ⟨h, .raw body⟩) ∧
+    wpa2DecryptData ip aes keys ⟨h, .raw body⟩ = .ok (true, ⟨h.clearWep, .snap s⟩) ∧
+    h.clearWep.wep = false := by
+  intro body
+  have hm : 8 ≤ m.length := by
+    unfold snapParse at hs
+    split at hs
+    · simp
+    · cases hs
+  have hblen : 16 < body.length := by
+    show 16 < (Spec.ccmpEncap _ h.bytes pn kid m).length
+    unfold Spec.ccmpEncap
+    simp only [List.length_append]
+    have : (Spec.ccmpHeader pn kid).length = 8 := rfl
+    rw [this, ctrXor_length _ hE _ _ _ _ (by omega)]
+    have : (xorBytes ((Spec.ctrBlock (aes ((k.ptk.drop 32).take 16)) (Spec.ccmpNonce h.bytes pn) 0).take 8)
+        (Spec.ccmTag (aes ((k.ptk.drop 32).take 16)) (Spec.ccmpNonce h.bytes pn) (Spec.ccmpAad h.bytes) m)).length = 8 := by
+      simp [Spec.ctrBlock, hE, ccmTag_length _ hE]
+    rw [this]
+    omega
+  have hbne : body ≠ [] := by intro h0; rw [h0] at hblen; simp at hblen
+  refine ⟨parseFrame_bytes ip h wf hw body hbne, ?_, clearWep_wep h⟩
+  obtain ⟨p', hd⟩ := ccmpDecrypt_refines ip _ hE h wf hsub body hblen
+  rw [spec_ccmp_roundtrip _ hE h.bytes pn hpn kid m] at hd
+  unfold wpa2DecryptData
+  simp only [Inner.findRaw, hw, hk, Bool.not_true, Bool.false_eq_true, if_false]
+  unfold decryptUnicast
+  rw [if_pos hc, hd]
+  simp [snapResult, hs]
+
+/-- **Reject (CCMP).** If the data-frame branch of `WPA2Decrypter::decrypt` reports a frame as decrypted under CCMP
+    session keys, the MIC of the body verifies under those keys: the specification's decapsulation over the header
+    bytes succeeds, and the new payload is the parse of exactly that plaintext. -/
+theorem ccmp_reject (ip : InnerParser) (aes : Bytes → BlockFn) (keys : KeyTable) (fr fr' : Frame) (wf : fr.hdr.WF)
+    (hsub : fr.hdr.subtype < 4 ∨ 8 ≤ fr.hdr.subtype) (k : SessionKeys) (hk : findKeys keys fr.hdr = some k)
+    (hc : k.isCcmp = true) (hE : ∀ b, (aes ((k.ptk.drop 32).take 16) b).length = 16)
+    (h : wpa2DecryptData ip aes keys fr = .ok (true, fr')) :
+    ∃ pload m s, fr.inner.findRaw = some pload ∧
+      Spec.ccmpDecap (aes ((k.ptk.drop 32).take 16)) fr.hdr.bytes pload = some m ∧
+      snapParse ip m = .ok s ∧ fr' = ⟨fr.hdr.clearWep, .snap s⟩ := by
+  have hmin : Gen.ccmpMin = 16 := rfl
+  unfold wpa2DecryptData at h
+  cases hraw : fr.inner.findRaw with
+  | none => simp [hraw] at h
+  | some pload =>
+    simp only [hraw, hk] at h
+    split at h
+    · simp at h
+    · unfold decryptUnicast at h
+      rw [if_pos hc] at h
+      by_cases hn : 16 < pload.length
+      · obtain ⟨p', hd⟩ := ccmpDecrypt_refines ip _ hE fr.hdr wf hsub pload hn
+        rw [hd] at h
+        cases hdec : Spec.ccmpDecap (aes ((k.ptk.drop 32).take 16)) fr.hdr.bytes pload with
+        | none => simp [hdec, snapResult] at h
+        | some m =>
+          cases hs : snapParse ip m with
+          | ok s =>
+            simp [hdec, snapResult, hs] at h
+            exact ⟨pload, m, s, rfl, hdec, hs, h.symm⟩
+          | throw e => simp [hdec, snapResult, hs] at h
+          | fault a b c => simp [hdec, snapResult, hs] at h
+      · have : ccmpDecrypt ip (aes ((k.ptk.drop 32).take 16)) fr.hdr pload = .ok (none, pload) := by
+          unfold ccmpDecrypt; simp [hmin, show pload.length ≤ 16 by omega]
+        rw [this] at h
+        simp at h
+
+/-! ## Safety and key lookup of the WPA2 data path -/
+
+/-- **decrypt_noFault.** For every frame whose header satisfies the cast invariant of `Dot11::from_bytes` (QoS subtype
+    ⇒ `Dot11QoSData`), every key table, every block cipher and **every protected body — any length, any content** —
+    the data-frame branch of `WPA2Decrypter::decrypt` (TKIP and CCMP) performs no out-of-bounds access and throws
+    nothing. (On the unfixed code the CCMP guard `ccmpMin` is 0 and this theorem does not check.) -/
+theorem wpa2_decrypt_noFault (ip : InnerParser) (aes : Bytes → BlockFn) (keys : KeyTable) (fr : Frame)
+    (hq : fr.hdr.QosCastOk) : ∃ r fr', wpa2DecryptData ip aes keys fr = .ok (r, fr') :=
+  wpa2DecryptData_total ip aes keys fr hq
+
+/-- every header produced by the parser satisfies the cast invariant -/
+theorem parsed_header_cast_ok (h : Hdr) (wf : h.WF) : h.QosCastOk := wf.qosCastOk
+
+/-- **No key, no decryption.** Without session keys under either address pair of the frame, the frame is left
+    untouched and not reported as decrypted. -/
+theorem wpa2_no_key (ip : InnerParser) (aes : Bytes → BlockFn) (keys : KeyTable) (fr : Frame)
+    (h1 : lookup keys (extractAddrPair fr.hdr) = none) (h2 : lookup keys (extractAddrPairDst fr.hdr) = none) :
+    wpa2DecryptData ip aes keys fr = .ok (false, fr) := by
+  have : findKeys keys fr.hdr = none := by
+    unfold findKeys
+    cases (fr.hdr.fromDS && !fr.hdr.toDS) <;> simp [h1, h2]
+  unfold wpa2DecryptData
+  cases fr.inner.findRaw with
+  | none => rfl
+  | some p => simp only [this]; split <;> rfl
+
+/-- unprotected frames are never touched by the WPA2 data path -/
+theorem wpa2_unprotected_untouched (ip : InnerParser) (aes : Bytes → BlockFn) (keys : KeyTable) (fr : Frame)
+    (h : fr.hdr.wep = false) : wpa2DecryptData ip aes keys fr = .ok (false, fr) := by
+  unfold wpa2DecryptData
+  cases fr.inner.findRaw with
+  | none => rfl
+  | some p => simp [h]
 
 end Tins.Props.C09
